@@ -36,6 +36,14 @@ class Violation(Exception):
         self.prop, self.what, self.detail, self.found_input = prop, what, detail, found_input
 
 
+class ImplHang(Exception):
+    """The real code, run by the harness, did not come back from one input (the harness's watchdog gave up after its
+    limit, or the whole run exceeded its time budget)."""
+    def __init__(self, cmd, what, last_output):
+        super().__init__("implementation hang")
+        self.cmd, self.what, self.last_output = cmd, what, last_output
+
+
 def log(*a):
     print(*a, file=sys.stderr, flush=True)
 
@@ -174,7 +182,17 @@ def build_driver():
 
 
 def run_harness(args, inp=None, release=False, timeout=3000):
-    rc, out, dt = run([harness_bin(release)] + args, inp=inp, timeout=timeout)
+    cmd = "harness " + " ".join(args) + (" (release build)" if release else "")
+    try:
+        rc, out, dt = run([harness_bin(release)] + args, inp=inp, timeout=timeout)
+    except subprocess.TimeoutExpired as e:
+        o = e.stdout or ""
+        if isinstance(o, bytes):
+            o = o.decode("latin1")
+        raise ImplHang(cmd, "the run did not finish within %d s" % timeout, o[-600:])
+    if rc == 99 and "\nHANG " in out:
+        h = out.rsplit("\nHANG ", 1)[1].split("\n", 1)[0].strip()
+        raise ImplHang(cmd, "no answer within 30 s on the input (%d bytes) %s" % (len(h) // 2, show_input(h, 400)), out[-300:])
     return rc, out
 
 
